@@ -356,7 +356,90 @@ private:"""),
     dict(property="C08", name="getbit-other-bit-order", rule="R-C08-6", file="include/nano/datasource/mask.h", tu="src/datasource.cpp",
          old="return (mask(sample / 8) & (0x01 << (7 - (sample % 8)))) != 0x00;", new="return (mask(sample / 8) & (0x01 << (sample % 8))) != 0x00;"),
     dict(property="C08", name="mask-size-truncated", rule="R-C08-6", file="src/datasource.cpp",
-         old="m_storage_mask.resize(static_cast<tensor_size_t>(features.size()), (samples + 7) / 8);", new="m_storage_mask.resize(static_cast<tensor_size_t>(features.size()), samples / 8 + 1);"),]
+         old="m_storage_mask.resize(static_cast<tensor_size_t>(features.size()), (samples + 7) / 8);", new="m_storage_mask.resize(static_cast<tensor_size_t>(features.size()), samples / 8 + 1);"),    # ---- C20
+    dict(property="C20", name="bin-truncation-restored", rule="R-C20-1", file="include/nano/core/histogram.h", tu="src/core/histogram.cpp",
+         old="const auto svalue = static_cast<scalar_t>(value); // NOLINT(cert-str34-c)", new="const auto svalue = static_cast<tensor_size_t>(value); // NOLINT(cert-str34-c)"),
+    dict(property="C20", name="bin-lower-bound", rule="R-C20-2", file="include/nano/core/histogram.h", tu="src/core/histogram.cpp",
+         old="const auto* const it = std::upper_bound(begin, end, svalue);", new="const auto* const it = std::lower_bound(begin, end, svalue);"),
+    dict(property="C20", name="update-strict-comparator", rule="R-C20-2", file="include/nano/core/histogram.h", tu="src/core/histogram.cpp",
+         old="const auto op = [](scalar_t threshold, scalar_t value) { return value >= threshold; };", new="const auto op = [](scalar_t threshold, scalar_t value) { return value > threshold; };"),
+    dict(property="C20", name="percentile-position-n", rule="R-C20-3", file="include/nano/core/stats.h", tu="src/core/histogram.cpp",
+         old="const double position = percentage * static_cast<double>(size - 1) / 100.0;", new="const double position = percentage * static_cast<double>(size) / 100.0;"),
+    dict(property="C20", name="percentile-rpos-floor", rule="R-C20-3", file="include/nano/core/stats.h", tu="src/core/histogram.cpp",
+         old="const auto rpos = static_cast<decltype(size)>(std::ceil(position));", new="const auto rpos = static_cast<decltype(size)>(std::floor(position)) + (position > 0.5 ? 1 : 0);"),
+    dict(property="C20", name="percentile-nth-at-begin", rule="R-C20-3", file="include/nano/core/stats.h", tu="src/core/histogram.cpp",
+         old="        std::nth_element(begin, middle, end);\n        return static_cast<double>(*middle);", new="        std::nth_element(begin, middle, end);\n        return static_cast<double>(*begin);"),
+    dict(property="C20", name="stats-load-swaps-slots", rule="R-C20-4", file="src/machine/stats.cpp",
+         old="stats(6), stats(7), stats(8), stats(9), stats(10), stats(11),", new="stats(6), stats(7), stats(8), stats(10), stats(9), stats(11),"),
+    dict(property="C20", name="stats-store-wrong-percentile", rule="R-C20-4", file="src/machine/stats.cpp",
+         old="stats(4)  = ::percentile(values, 5.0);", new="stats(4)  = ::percentile(values, 50.0);"),
+    dict(property="C20", name="median-sorted-uses-unsorted-40", rule="R-C20-3", file="include/nano/core/stats.h", tu="src/core/histogram.cpp",
+         old="    return percentile_sorted(begin, end, 50);", new="    return percentile_sorted(begin, end, 40);"),    # ---- C14
+    dict(property="C14", name="upscale-minmax-uses-stdev", rule="R-C14-1", file="src/dataset/stats.cpp",
+         old="            array      = m_min.array() + array * m_mul_range.array();", new="            array      = m_min.array() + array * m_mul_stdev.array();"),
+    dict(property="C14", name="upscale-mean-uses-min", rule="R-C14-1", file="src/dataset/stats.cpp",
+         old="""    case scaling_type::mean:
+        for (tensor_size_t sample = 0, samples = values.size<0>(); sample < samples; ++sample)
+        {
+            auto array = values.array(sample);
+            array      = m_mean.array() + array * m_mul_range.array();""", new="""    case scaling_type::mean:
+        for (tensor_size_t sample = 0, samples = values.size<0>(); sample < samples; ++sample)
+        {
+            auto array = values.array(sample);
+            array      = m_min.array() + array * m_mul_range.array();"""),
+    dict(property="C14", name="make-scaling-standard-bias-sign", rule="R-C14-1", file="src/dataset/stats.cpp",
+         old="            b.array() = -stats.m_mean.array() * stats.m_div_stdev.array();", new="            b.array() = stats.m_mean.array() * stats.m_div_stdev.array();"),
+    dict(property="C14", name="div-range-without-mul-range", rule="R-C14-2", file="src/dataset/stats.cpp",
+         old="            stats.m_mul_range(i) = std::max(stats.m_max(i) - stats.m_min(i), epsilon);\n", new=""),
+    dict(property="C14", name="mul-stdev-not-clamped", rule="R-C14-2", file="src/dataset/stats.cpp",
+         old="            stats.m_mul_stdev(i) = std::max(stats.m_stdev(i), epsilon);", new="            stats.m_mul_stdev(i) = stats.m_stdev(i);"),
+    dict(property="C14", name="standard-drops-nan2zero", rule="R-C14-3", file="src/dataset/stats.cpp",
+         old="""            array      = (array - m_mean.array()) * m_div_stdev.array();
+            nan2zero(array);""", new="""            array      = (array - m_mean.array()) * m_div_stdev.array();"""),
+    dict(property="C14", name="mask-reset-forgets-mean", rule="R-C14-4", file="src/dataset/stats.cpp",
+         old="""            stats.m_max(i)       = 0.0;
+            stats.m_mean(i)      = 0.0;
+            stats.m_stdev(i)     = 0.0;
+            stats.m_div_range(i) = 1.0;
+            stats.m_div_stdev(i) = 1.0;
+            stats.m_mul_range(i) = 1.0;
+            stats.m_mul_stdev(i) = 1.0;
+        }
+    }
+}""", new="""            stats.m_max(i)       = 0.0;
+            stats.m_stdev(i)     = 0.0;
+            stats.m_div_range(i) = 1.0;
+            stats.m_div_stdev(i) = 1.0;
+            stats.m_mul_range(i) = 1.0;
+            stats.m_mul_stdev(i) = 1.0;
+        }
+    }
+}"""),
+    dict(property="C14", name="flatten-mask-only-sclass", rule="R-C14-4", file="src/dataset/stats.cpp",
+         old="const auto isclass     = feature.is_sclass() || feature.is_mclass();", new="const auto isclass     = feature.is_sclass();"),
+    dict(property="C14", name="upscale-bias-after-weights", rule="R-C14-5", file="src/dataset/stats.cpp",
+         old="""    // cppcheck-suppress unreadVariable
+    bias.array() = (weights.matrix() * flatten_b.vector()).array() + bias.array() - targets_b.array();
+    // cppcheck-suppress unreadVariable
+    bias.array() /= targets_w.array();
+
+    // cppcheck-suppress unreadVariable
+    weights.matrix().array().colwise() /= targets_w.array();
+    // cppcheck-suppress unreadVariable
+    weights.matrix().array().rowwise() *= flatten_w.array().transpose();""",
+         new="""    weights.matrix().array().colwise() /= targets_w.array();
+    weights.matrix().array().rowwise() *= flatten_w.array().transpose();
+
+    bias.array() = (weights.matrix() * flatten_b.vector()).array() + bias.array() - targets_b.array();
+    bias.array() /= targets_w.array();"""),
+    dict(property="C14", name="upscale-bias-sign", rule="R-C14-5", file="src/dataset/stats.cpp",
+         old="bias.array() = (weights.matrix() * flatten_b.vector()).array() + bias.array() - targets_b.array();",
+         new="bias.array() = (weights.matrix() * flatten_b.vector()).array() + bias.array() + targets_b.array();"),
+    dict(property="C14", name="variance-clamp-removed", rule="R-C14-6", file="src/dataset/stats.cpp",
+         old="std::sqrt(std::max(0.0, (stats.m_stdev(i) - stats.m_mean(i) * stats.m_mean(i) / dN) / (dN - 1.0)));",
+         new="std::sqrt((stats.m_stdev(i) - stats.m_mean(i) * stats.m_mean(i) / dN) / (dN - 1.0));"),
+    dict(property="C14", name="single-sample-enters-variance", rule="R-C14-6", file="src/dataset/stats.cpp",
+         old="if (const auto N = stats.m_samples(i); N > 1)", new="if (const auto N = stats.m_samples(i); N > 0)"),]
 
 BENIGN = [
     dict(property="C07", name="lemarechal-swap-operands", file="src/lsearchk/lemarechal.cpp",
@@ -416,4 +499,13 @@ BENIGN = [
     critical(!::nano::read(stream, m_target), "learner: failed to read from stream!");"""),
     dict(property="C08", name="feature-guard-flipped-operands", file="src/dataset.cpp",
          old="critical(feature < 0 || feature >= features(),", new="critical(0 > feature || features() <= feature,"),
+    dict(property="C20", name="bin-query-via-double-local", file="include/nano/core/histogram.h",
+         old="const auto svalue = static_cast<scalar_t>(value); // NOLINT(cert-str34-c)", new="const double svalue = value;"),
+    dict(property="C20", name="percentile-position-reordered", file="include/nano/core/stats.h",
+         old="const double position = percentage * static_cast<double>(size - 1) / 100.0;", new="const double position = static_cast<double>(size - 1) * (percentage / 100.0);"),
+    dict(property="C14", name="scale-mean-reassociated", file="src/dataset/stats.cpp",
+         old="            array      = (array - m_mean.array()) * m_div_range.array();", new="            array      = array * m_div_range.array() - m_mean.array() * m_div_range.array();"),
+    dict(property="C14", name="variance-abs-instead-of-max", file="src/dataset/stats.cpp",
+         old="std::sqrt(std::max(0.0, (stats.m_stdev(i) - stats.m_mean(i) * stats.m_mean(i) / dN) / (dN - 1.0)));",
+         new="std::sqrt(std::fabs((stats.m_stdev(i) - stats.m_mean(i) * stats.m_mean(i) / dN) / (dN - 1.0)));"),
 ]
